@@ -47,6 +47,20 @@ def objective(desc):
     if k == 'const':
         c = desc.get('c', 0.0)
         return lambda y: float(c)
+    if k == 'gkls':  # a shipped GKLS function (many local minima, box [-1, 1]^dim)
+        import numpy as np
+        from iOpt.problems.GKLS import GKLS
+        from iOpt.trial import Point, FunctionValue
+        g = GKLS(desc['dim'], desc['k'])
+        return lambda y: float(g.Calculate(Point(np.array(y, dtype=np.double), []), FunctionValue()).value)
+    if k == 'noisy':  # a stochastic objective drawing from numpy's global generator, seeded when the problem is created
+        import numpy as np
+        np.random.seed(desc.get('seed', 7))
+        c = desc['c']
+        return lambda y: float(sum((yi - ci) ** 2 for yi, ci in zip(y, c)) + 0.05 * np.random.standard_normal())
+    if k == 'rootabs':  # sum |y_i - c_i|^q, 0 < q < 1
+        c, q = desc['c'], desc.get('q', 0.5)
+        return lambda y: float(sum(abs(yi - ci) ** q for yi, ci in zip(y, c)))
     if k == 'expcap':  # capped exponential computed with numpy scalars: overflows (a numpy warning, normally) on part of the box
         import numpy as np
         w = desc.get('w', 900.0)
@@ -124,7 +138,7 @@ def cones_in_box(rng, n, lo, hi, k=3, smax=4.0):
 # ------------------------------------------------------------------------------------------------
 # Problem wrapper
 # ------------------------------------------------------------------------------------------------
-def make_problem(n, lo, hi, desc, fail_at=None, exc='RuntimeError', answers=None, fail_region=None, returns_new_holder=False):
+def make_problem(n, lo, hi, desc, fail_at=None, exc='RuntimeError', answers=None, fail_region=None, returns_new_holder=False, discrete=0):
     """A Problem whose Calculate logs (point, value) and can raise at call number fail_at (1-based)."""
     from iOpt.problem import Problem
 
@@ -138,6 +152,10 @@ def make_problem(n, lo, hi, desc, fail_at=None, exc='RuntimeError', answers=None
         def __init__(self):
             super().__init__()
             self.numberOfFloatVariables = n
+            if discrete:      # declared discrete parameters (this version of the library ignores them)
+                self.numberOfDisreteVariables = discrete
+                self.discreteVariableNames = np.array(['d%d' % i for i in range(discrete)], dtype=str)
+                self.discreteVariableValues = [['A', 'B'] for _ in range(discrete)]
             self.numberOfObjectives = 1
             self.numberOfConstraints = 0
             self.dimension = n
@@ -177,7 +195,7 @@ def make_solver(problem, r=2.0, eps=0.01, iters=1000, density=None, refine=False
     from iOpt.solver_parametrs import SolverParameters
     kw = dict(eps=eps, r=r, itersLimit=iters, refineSolution=refine)
     if density is not None:
-        kw['evolventDensity'] = density
+        kw['evolventDensity'] = density      # may be a python int or a numpy integer scalar (a value taken from an array of settings)
     if start is not None:      # the documented startPoint parameter (a user's guess of the solution)
         import numpy as np
         from iOpt.trial import Point
